@@ -426,6 +426,8 @@ def run(ctx):
     # activation races: a change of the rule set against the FIRST log of a module (cache miss) followed by a
     # second log of the same module after the change has returned (the stale entry, if any, is then hit)
     for ai in range(ctx.n(6, 40) * boost):
+        if boost > 1 and nviol[0]:
+            break          # enlarged search after a broken obligation: a failing input has been found
         r0 = rng.fork("act%d" % ai)
         name = r0.choice(["m", "m.a", "", "n"])
         mod = r0.choice([m for m in MODULES if name == "" or m == name or m.startswith(name + ".")] or ["n"])
@@ -434,11 +436,13 @@ def run(ctx):
         prog = {"handlers": ["DEBUG"], "threads": [pre + [[kind, name]], [["log", mod, "INFO"], ["log", mod, "INFO"]]]}
         if r0.chance(40):
             prog["threads"].append([["log", mod, "INFO"]])
-        dfs_schedules(prog, bound=2, limit=ctx.n(60, 600),
+        dfs_schedules(prog, bound=2, limit=ctx.n(60, 600) * (8 if boost > 1 else 1),
                       on_run=lambda r, pre_, prog=prog: judge(r, pre_, prog, "dfs-activation"))
     # level-table races: a level created at run time against a log at that level, and against add() of a handler
     # that pre-colours its format per level (colourised, static format)
     for li in range(ctx.n(6, 30) * boost):
+        if boost > 1 and nviol[0]:
+            break          # enlarged search after a broken obligation: a failing input has been found
         r0 = rng.fork("lvl%d" % li)
         hs = [r0.choice(["DEBUG:c", "DEBUG:c", "INFO:c", "DEBUG"]) for _ in range(r0.range(1, 2))]
         mk = ["newlevel", "L0", r0.choice([25, 45]), r0.choice(["<red>", "<blue><bold>", ""])]
@@ -453,11 +457,13 @@ def run(ctx):
         else:
             threads = [[mk, ["level", "L0", "<green>"]], [lg], [["add", "INFO:c"], lg]]
         prog = {"handlers": hs, "threads": threads}
-        dfs_schedules(prog, bound=2, limit=ctx.n(80, 800),
+        dfs_schedules(prog, bound=2, limit=ctx.n(80, 800) * (8 if boost > 1 else 1),
                       on_run=lambda r, pre_, prog=prog: judge(r, pre_, prog, "dfs-levels"))
     nprog = ctx.n(30, 80) * boost
     per_prog = ctx.n(35, 200)
     for pi in range(nprog):
+        if boost > 1 and nviol[0]:
+            break          # enlarged search after a broken obligation: a failing input has been found
         prog = gen_program(rng.fork("p%d" % pi), nthreads=(2 if ctx.quick else None))
         if pi < 2:
             ctx.sample({"program": prog})
@@ -465,6 +471,8 @@ def run(ctx):
                       on_run=lambda r, pre, prog=prog: judge(r, pre, prog, "dfs"))
     nrand = ctx.n(300, 5000) * boost
     for i in range(nrand):
+        if boost > 1 and nviol[0]:
+            break          # enlarged search after a broken obligation: a failing input has been found
         r2 = rng.fork("r%d" % i)
         prog = gen_program(r2, maxops=3)
         r = Run(prog, sched.random_chooser(r2, switch_pct=r2.choice([15, 35, 60]))).execute()
